@@ -106,7 +106,8 @@ class ExprGen:
         if x < 0.5:
             return ("num", r.randrange(0, 20))
         if x < 0.8:
-            return ("num", abs(r.choice(B64)) if abs(r.choice(B64)) < 2**63 else 2**63 - 1)
+            v = abs(r.choice(B64))
+            return ("num", v if v < 2**63 else 2**63 - 1)
         return ("num", r.randrange(0, 2**63))
 
     def atom(self):
@@ -298,8 +299,9 @@ class ProgGen:
             if x < p.get("wrow", 0.45):
                 out.append(self.row(scope))
             elif x < p.get("wrow", 0.45) + p.get("wlet", 0.2):
-                if scope and r.random() < 0.4:
-                    name = r.choice(scope)
+                rebindable = [v for v in scope if not v.startswith("i") or r.random() < p.get("rebind_counter", 0.02)]
+                if rebindable and r.random() < 0.4:
+                    name = r.choice(rebindable)
                 else:
                     name = self.fresh()
                     if r.random() < p.get("shadow_out", 0.0) and self.readable:
